@@ -5,6 +5,8 @@
 (*   //dict(t)        = {name: value} for the attributes of the tuple t (one level)                *)
 (*   //tuple(d)       = the tuple with an attribute per string key of d (inverse of dict)          *)
 (*   //rel.union(SS)  = the union of the members of SS                                           *)
+(*   //seq.concat(q)  = the members of the array q laid end to end (zero-based members)        *)
+(*   //str.upper(s), //str.lower(s) = s with every ASCII letter mapped, everything else kept     *)
 (* TLC checks the inverse laws on the definitions and emits every input with its expected output.   *)
 EXTENDS ArraiValue
 
@@ -24,7 +26,22 @@ KeyStr(n) == Str(<<CASE n = "a" -> 97 [] n = "b" -> 98 [] OTHER -> 107>>, 0)
 DictOf(t) == Dict([kk \in {KeyStr(n) : n \in Attrs(t)} |-> t.t[CHOOSE n \in Attrs(t) : KeyStr(n) = kk]])
 Members == {S({}), S({N(1)}), S({N(1), N(2)}), S({N(3)}), Arr(<<N(1)>>, 0), Str(<<97>>, 0)}
 
-Cases == {[f |-> "bits.mask", arg |-> S({N(i) : i \in s}), out |-> N(Mask(s))] : s \in SUBSET (0..5)}
+\* concatenation of zero-based sequences, from the definition of ++ (shift by the count so far)
+SeqsUpTo(X, n) == UNION {[1..k -> X] : k \in 0..n}
+RECURSIVE Flat(_)
+Flat(qq) == IF qq = <<>> THEN <<>> ELSE Head(qq) \o Flat(Tail(qq))
+ArrParts == {<<>>, <<N(1)>>, <<N(2), N(3)>>, <<S({})>>}
+StrParts == {<<>>, <<97>>, <<98, 67>>}
+Letters  == {65, 90, 97, 122, 48, 64, 91, 96, 123}       \* A Z a z 0 @ [ ` {
+Up(c)  == IF c \in 97..122 THEN c - 32 ELSE c
+Low(c) == IF c \in 65..90 THEN c + 32 ELSE c
+StrMap(q, F(_)) == [i \in DOMAIN q |-> F(q[i])]
+
+Cases == {[f |-> "seq.concat", arg |-> Arr([i \in DOMAIN qq |-> Arr(qq[i], 0)], 0), out |-> Arr(Flat(qq), 0)] : qq \in SeqsUpTo(ArrParts, 3)}
+         \cup {[f |-> "seq.concat", arg |-> Arr([i \in DOMAIN qq |-> Str(qq[i], 0)], 0), out |-> Str(Flat(qq), 0)] : qq \in SeqsUpTo(StrParts, 3)}
+         \cup {[f |-> "str.upper", arg |-> Str(q, 0), out |-> Str(StrMap(q, Up), 0)] : q \in SeqsUpTo(Letters, 2)}
+         \cup {[f |-> "str.lower", arg |-> Str(q, 0), out |-> Str(StrMap(q, Low), 0)] : q \in SeqsUpTo(Letters, 2)}
+         \cup {[f |-> "bits.mask", arg |-> S({N(i) : i \in s}), out |-> N(Mask(s))] : s \in SUBSET (0..5)}
          \cup {[f |-> "bits.set", arg |-> N(n), out |-> S({N(i) : i \in BitsOf(n)})] : n \in 0..70}
          \cup {[f |-> "dict", arg |-> t, out |-> DictOf(t)] : t \in Tuples}
          \cup {[f |-> "tuple", arg |-> DictOf(t), out |-> t] : t \in Tuples}
@@ -38,4 +55,8 @@ Spec == Init /\ [][Next]_vars
 \* the definitions are inverse to each other
 Inverse == /\ \A s \in SUBSET (0..5) : BitsOf(Mask(s)) = s
            /\ \A n \in 0..70 : Mask(BitsOf(n)) = n
+\* upper / lower are idempotent, and agree with each other on letters
+CaseLaws == \A c \in Letters : Up(Up(c)) = Up(c) /\ Low(Low(c)) = Low(c) /\ Up(Low(c)) = Up(c) /\ Low(Up(c)) = Low(c)
+\* concatenation is associative on the parts
+FlatAssoc == \A a, b, c \in ArrParts : Flat(<<Flat(<<a, b>>), c>>) = Flat(<<a, Flat(<<b, c>>)>>)
 =============================================================================
